@@ -811,8 +811,13 @@ def fd_mc(ctx, name, consts):
     return mc(ctx, name, "MC_FD", c, FD_INVS, {"GoalsAfter": "FdGoalsAfter", "Vals": "FdVals"}, workers=14, timeout=7000)
 
 
-def fd_cases_from_mc(ctx, res, prefix, nvars, stride=1):
-    """MC_FD behaviours -> query programs (when every variable got a domain) and FD store cases."""
+def fd_cases_from_mc(ctx, res, prefix, nvars, stride=1, limit=60000):
+    """MC_FD behaviours -> query programs (when every variable got a domain) and FD store cases.
+    At most `limit` distinct behaviours are used (every k-th one)."""
+    uniq = len(set(json_key(c["ops"]) for c in res["cases"]))
+    stride = max(stride, -(-uniq // limit))
+    if stride > 1:
+        ctx["notes"].append("%s: every %d-th of %d distinct behaviours executed" % (prefix, stride, uniq))
     out, seen = [], set()
     for n, c in enumerate(res["cases"]):
         key = json_key(c["ops"])
